@@ -39,12 +39,32 @@ package croncontroller
 //@   ensures [C01] other-entries-untouched: forall x string :: x != key ==> cronschedule.due(w.schedule, x) == old(cronschedule.due(w.schedule, x))
 //@        && (cronschedule.due(w.schedule, x) ==> cronschedule.dueAt(w.schedule, x) == old(cronschedule.dueAt(w.schedule, x)))
 
-// flushing of updated JobConfigs (channel receive loop): contract ASSUMED here, see C03
-//@ extern func CronWorker.refreshUpdatedJobConfigs
-//@   params w, now
+// flushing of updated JobConfigs (C03): each JobConfig taken from the channel is removed from the heap and, only if it still
+// exists, re-inserted at its next match strictly after `now`; at most 1000 per tick
+//@ pure notCached(jc *execution.JobConfig) bool = jcCached(jc.Namespace, jc.Name) == nil
+//@ pure flushKey(jc *execution.JobConfig) string = nsname(jc.Namespace, jc.Name)
+
+//@ func CronWorker.refreshUpdatedJobConfigs
+//@   tags C03
 //@   requires w != nil && cronschedule.swf(w.schedule)
-//@   modifies w.schedule.jobConfigs.pq.queue, arrays(*heap.Item), mapof(w.schedule.jobConfigs.pq.names), heap(heap.Item)
-//@   ensures cronschedule.swf(w.schedule)
+//@   requires chanrecvd(w.updatedConfigs) <= chansent(w.updatedConfigs) && (forall i int :: chanrecvd(w.updatedConfigs) <= i && i < chansent(w.updatedConfigs) ==> chanat(w.updatedConfigs, i) != nil)
+//@   modifies chanof(w.updatedConfigs), w.schedule.jobConfigs.pq.queue, arrays(*heap.Item), mapof(w.schedule.jobConfigs.pq.names), heap(heap.Item)
+//@   loop 1 invariant cronschedule.swf(w.schedule) && 0 <= flushes && flushes <= 1000
+//@   loop 1 invariant chanrecvd(w.updatedConfigs) == old(chanrecvd(w.updatedConfigs)) + flushes && chansent(w.updatedConfigs) == old(chansent(w.updatedConfigs)) && chanrecvd(w.updatedConfigs) <= chansent(w.updatedConfigs)
+//@   loop 1 invariant forall i int :: chanat(w.updatedConfigs, i) == old(chanat(w.updatedConfigs, i))
+//@   loop 1 invariant [C03] deleted-stay-out: forall i int :: old(chanrecvd(w.updatedConfigs)) <= i && i < chanrecvd(w.updatedConfigs) && notCached(chanat(w.updatedConfigs, i))
+//@        ==> !cronschedule.due(w.schedule, flushKey(chanat(w.updatedConfigs, i)))
+//@   loop 1 invariant [C03] nothing-back-dated: forall i int :: old(chanrecvd(w.updatedConfigs)) <= i && i < chanrecvd(w.updatedConfigs) && cronschedule.due(w.schedule, flushKey(chanat(w.updatedConfigs, i)))
+//@        ==> cronschedule.dueAt(w.schedule, flushKey(chanat(w.updatedConfigs, i))) * 1000000000 > ns(now)
+//@   loop 1 invariant [C03] others-untouched: forall x string :: (forall i int :: old(chanrecvd(w.updatedConfigs)) <= i && i < chanrecvd(w.updatedConfigs) ==> flushKey(chanat(w.updatedConfigs, i)) != x)
+//@        ==> cronschedule.due(w.schedule, x) == old(cronschedule.due(w.schedule, x)) && (cronschedule.due(w.schedule, x) ==> cronschedule.dueAt(w.schedule, x) == old(cronschedule.dueAt(w.schedule, x)))
+//@   ensures [C03] keeps-wf: cronschedule.swf(w.schedule)
+//@   ensures [C03] deleted-stay-out: forall i int :: old(chanrecvd(w.updatedConfigs)) <= i && i < chanrecvd(w.updatedConfigs) && notCached(chanat(w.updatedConfigs, i))
+//@        ==> !cronschedule.due(w.schedule, flushKey(chanat(w.updatedConfigs, i)))
+//@   ensures [C03] nothing-back-dated: forall i int :: old(chanrecvd(w.updatedConfigs)) <= i && i < chanrecvd(w.updatedConfigs) && cronschedule.due(w.schedule, flushKey(chanat(w.updatedConfigs, i)))
+//@        ==> cronschedule.dueAt(w.schedule, flushKey(chanat(w.updatedConfigs, i))) * 1000000000 > ns(now)
+//@   ensures [C03] takes-pending-updates: chanrecvd(w.updatedConfigs) >= old(chanrecvd(w.updatedConfigs)) && chanrecvd(w.updatedConfigs) <= chansent(w.updatedConfigs)
+//@        && (chanrecvd(w.updatedConfigs) == chansent(w.updatedConfigs) || chanrecvd(w.updatedConfigs) == old(chanrecvd(w.updatedConfigs)) + 1000)
 
 //@ extern func iface github.com/furiko-io/furiko/pkg/runtime/controllercontext.Context.Configs
 //@   params recv
@@ -113,3 +133,59 @@ package croncontroller
 // failed syncs of this reconciler are requeued without limit (C20)
 //@ func Reconciler.MaxRequeues
 //@   ensures [C20] unlimited-requeues: result == -1
+
+// ---- informer.go: which JobConfig events re-base the schedule (C03) -----------------------------------------------------------------
+
+// calls made to the update handler (production: a send on the updatedConfigs channel, see updateHandler.OnUpdate)
+//@ ghost var updN Int
+//@ ghost var updObj Array[Int]*execution.JobConfig
+//@ extern func iface github.com/furiko-io/furiko/pkg/execution/controllers/croncontroller.UpdateHandler.OnUpdate
+//@   params recv, jobConfig
+//@   modifies updN, updObj
+//@   ensures updN == old(updN) + 1 && updObj == store(old(updObj), old(updN), jobConfig)
+
+//@ func updateHandler.OnUpdate
+//@   tags C03
+//@   requires d != nil
+//@   modifies chanof(d.updateChan)
+//@   ensures [C03] queued-for-the-next-tick: chansent(d.updateChan) == old(chansent(d.updateChan)) + 1 && chanat(d.updateChan, old(chansent(d.updateChan))) == jobConfig
+//@        && chanrecvd(d.updateChan) == old(chanrecvd(d.updateChan))
+
+// schedule equality (JSON comparison of the ScheduleSpec values): ASSUMED to be an equivalence relation decided by IsScheduleEqual
+//@ pure schedEq(a *execution.ScheduleSpec, b *execution.ScheduleSpec) bool
+//@ axiom schedEq-reflexive: forall a *execution.ScheduleSpec :: schedEq(a, a)
+//@ extern func IsScheduleEqual
+//@   params orig, updated
+//@   ensures result1 == nil ==> result0 == schedEq(orig, updated)
+
+//@ pure asJobConfig(obj any) *execution.JobConfig = typeis(obj, *execution.JobConfig) ? unbox(obj, *execution.JobConfig)
+//@     : ((typeis(obj, cache.DeletedFinalStateUnknown) && typeis(unbox(obj, cache.DeletedFinalStateUnknown).Obj, *execution.JobConfig))
+//@           ? unbox(unbox(obj, cache.DeletedFinalStateUnknown).Obj, *execution.JobConfig) : nil)
+//@ pure isJobConfigEvent(obj any) bool = typeis(obj, *execution.JobConfig)
+//@     || (typeis(obj, cache.DeletedFinalStateUnknown) && typeis(unbox(obj, cache.DeletedFinalStateUnknown).Obj, *execution.JobConfig))
+
+//@ func InformerWorker.enqueueFlush
+//@   tags C03
+//@   requires w != nil
+//@   modifies updN, updObj
+//@   ensures [C03] flush-every-jobconfig-event: isJobConfigEvent(obj) ==> updN == old(updN) + 1 && updObj[old(updN)] == asJobConfig(obj)
+//@   ensures [C03] ignore-other-objects: !isJobConfigEvent(obj) ==> updN == old(updN)
+
+//@ func InformerWorker.handleUpdate
+//@   tags C03
+//@   requires w != nil
+//@   modifies updN, updObj
+//@   ensures [C03] at-most-one-flush: old(updN) <= updN && updN <= old(updN) + 1
+//@   ensures [C03] flush-only-when-schedule-changed: updN == old(updN) + 1 ==> isJobConfigEvent(oldObj) && isJobConfigEvent(newObj)
+//@        && !schedEq(asJobConfig(oldObj).Spec.Schedule, asJobConfig(newObj).Spec.Schedule) && updObj[old(updN)] == asJobConfig(newObj)
+//@   ensures [C03] unchanged-schedule-is-not-flushed: isJobConfigEvent(oldObj) && isJobConfigEvent(newObj)
+//@        && schedEq(asJobConfig(oldObj).Spec.Schedule, asJobConfig(newObj).Spec.Schedule) ==> updN == old(updN)
+
+// Init registers the handlers; a JobConfig "starts being scheduled from the moment it is created": an add handler is needed too
+//@ func InformerWorker.Init
+//@   tags C03
+//@   requires w != nil
+//@   modifies regN, regHandler
+//@   ensures [C03] handlers-registered: regN == old(regN) + 1 && typeis(regHandler[old(regN)], cache.ResourceEventHandlerFuncs)
+//@        && unbox(regHandler[old(regN)], cache.ResourceEventHandlerFuncs).UpdateFunc != nil && unbox(regHandler[old(regN)], cache.ResourceEventHandlerFuncs).DeleteFunc != nil
+//@   ensures [C03] add-handler: unbox(regHandler[old(regN)], cache.ResourceEventHandlerFuncs).AddFunc != nil
